@@ -125,6 +125,11 @@ def main(argv):
             if not os.path.exists(os.path.join(d, "patch.diff")) or only not in name:
                 continue
             meta = json.load(open(os.path.join(d, "meta.json")))
+            if meta.get("obsolete"):
+                table[name] = {"seeded": name, "property": meta["property"], "detected_by": "obsolete", "note": meta["obsolete"]}
+                print("%-28s property=%s obsolete" % (name, meta["property"]), flush=True)
+                json.dump([table[k] for k in sorted(table)], open(out, "w"), indent=1)
+                continue
             ids = meta.get("checked_by") or [meta["property"]]
             res = run(d, ids, tier)
             det = [p for p, r in (res or {}).items() if r["detected"]]
